@@ -179,7 +179,9 @@ def oracle(c, o):
         if tA is None or tB is None:
             continue
         lam, phi = Fr(cc["lam"]), Fr(cc["phi"])
-        diff = M.compare(oA, oB, units_transform(lam, phi), lam * tA + tB + Fr(1, 10 ** 9) * lam * max(abs(C.ffloat(v)) for v in oA["U"]), what)
+        umaxA = max(abs(C.ffloat(v)) for v in oA["U"])
+        # translations are expressed in the new length unit, rotations are not: their error bound does not shrink with lam
+        diff = M.compare(oA, oB, units_transform(lam, phi), (lam * tA + tB + Fr(1, 10 ** 9) * lam * umaxA, tA + tB + Fr(1, 10 ** 9) * umaxA), what)
         if diff and (tiny_entries(oA) or tiny_entries(oB)):
             # both systems solve, but one of them lost stiffness terms to the absolute cut-off: the listed finding's input class
             KNOWN.append("K-C09-assembly-cutoff: a generated structure solves to different results in a unit system where some slice stiffness term is under the absolute 1e-10 cut-off")
